@@ -706,9 +706,12 @@ func (t *TermBuilder) callTerm(c *ssa.Call) string {
 			sub.Bounds = t.Bounds
 			sub.Loaded = t.Loaded
 			actuals := c.Call.Args
+			sub.Bind = map[*ssa.Parameter]BoundVal{}
 			for i, prm := range cal.Params {
 				if i < len(actuals) {
 					sub.Names[prm] = t.Term(actuals[i])
+					// a record handed in (by value or by address) stays resolvable field by field
+					sub.Bind[prm] = BoundVal{Val: actuals[i], TB: t}
 				}
 			}
 			return sub.Term(ret.Results[0])
